@@ -172,14 +172,33 @@ def _items_gen(pat: Term, it: Term):
             and pat[1][0][0] == "var" and pat[1][1][0] == "var":
         k, v = pat[1]
         return k, it[1], {v: ("index", it[1], k)}
+    if it[0] == "meth" and it[2] == "values" and not it[3] and not it[4] and pat[0] == "var" and isinstance(pat[1], str):
+        # `for v in d.values()` reads d[k] for every key k
+        k = ("var", "%key_of_" + pat[1].lstrip("%"))
+        return k, it[1], {pat: ("index", it[1], k)}
+    if it[0] == "meth" and it[2] == "items" and not it[3] and not it[4] and pat[0] == "var":
+        # the pair itself is bound: pair[0] is the key, pair[1] the value read at that key
+        return pat, it[1], {("index", pat, ("const", 0)): pat, ("index", pat, ("const", 1)): ("index", it[1], pat)}
     return None
 
 
 def _keys(it: Term) -> Term:
-    """iterating d.keys() is iterating d"""
+    """iterating d.keys() is iterating d; iterating {k: v for k in S} is iterating S"""
     if it[0] == "meth" and it[2] == "keys" and not it[3] and not it[4]:
-        return it[1]
+        return _keys(it[1])
+    if it[0] == "comp" and it[1] == "dict" and len(it[3]) == 1 and it[2][0] == "kv" and it[2][1] == it[3][0][0] and it[3][0][0][0] == "var" and not it[3][0][2]:
+        return it[3][0][1]
     return it
+
+
+def _beta_dict(t: Any) -> Any:
+    """{k: f(k) for k in S}[x]  is  f(x)  (for a key x)"""
+    def f(s_: Term):
+        if s_[0] == "index" and is_term(s_[1]) and s_[1][0] == "comp" and s_[1][1] == "dict" and len(s_[1][3]) == 1 and s_[1][2][0] == "kv" \
+                and s_[1][2][1] == s_[1][3][0][0] and s_[1][3][0][0][0] == "var" and not s_[1][3][0][2]:
+            return subst(s_[1][2][2], {s_[1][3][0][0]: s_[2]})
+        return None
+    return mapterm(t, f)
 
 
 def _drop_enumerate(gens: list, rest: Any) -> list:
@@ -262,7 +281,7 @@ def normalise_items(paths: list) -> list:
         m: dict = {}
         conds = []
         for c in p.conds:
-            c = subst(_norm_items_term(c), m)
+            c = _beta_dict(subst(_norm_items_term(c), m))
             if c[0] == "iter-elem":
                 r = _items_gen(c[1], c[2])
                 if r is not None:
@@ -272,7 +291,7 @@ def normalise_items(paths: list) -> list:
             conds.append(c)
         v = p.value
         if p.kind == "return":
-            v = subst(_norm_items_term(v), m)
+            v = _beta_dict(subst(_norm_items_term(v), m))
         q = replace(p, conds=tuple(conds), value=v)
         out.append(q)
     return out
@@ -382,6 +401,20 @@ def all_differences(a: Any, b: Any, out: list | None = None, depth: int = 0) -> 
     return out
 
 
+def _nonempty_axioms(e: Term, formulas, sa: SetAlg) -> list:
+    """an element of S witnesses that S is not empty: (e ∈ S) -> nonempty(S), for the membership atoms of the compared collections"""
+    from .setalg import atoms_of, f_or
+
+    out = []
+    seen = set()
+    for fm in formulas:
+        for a in atoms_of(fm):
+            if isinstance(a, tuple) and a and a[0] == "in" and a[1] == e and a not in seen:
+                seen.add(a)
+                out.append(norm_formula(f_or(f_not(("atom", a)), sa.cond(("truth", a[2])))))
+    return out
+
+
 def guarded_equal(x: Any, y: Any, guard, sa: SetAlg, depth: int = 0) -> bool:
     """Are the two (raw) values equal on every input that satisfies the joint guard?  Set-valued operands are compared by membership
     under the guard (a part that is empty on these inputs does not count); everything else must have the same canonical form."""
@@ -407,17 +440,19 @@ def guarded_equal(x: Any, y: Any, guard, sa: SetAlg, depth: int = 0) -> bool:
             # a list filled by a loop is read by its elements (the evaluator's abstraction of such loops): compare the other side the same way
             e = ("var", "§elem")
             mx, my = sa.member(e, xs), sa.member(e, ys)
+            ax = _nonempty_axioms(e, (mx, my), sa)
             try:
-                return (satisfy(f_and(guard, norm_formula(mx), f_not(norm_formula(my)))) is None
-                        and satisfy(f_and(guard, norm_formula(my), f_not(norm_formula(mx)))) is None)
+                return (satisfy(f_and(guard, norm_formula(mx), f_not(norm_formula(my)), *ax)) is None
+                        and satisfy(f_and(guard, norm_formula(my), f_not(norm_formula(mx)), *ax)) is None)
             except TooManyAtoms:
                 return False
         if setlike(xs) and setlike(ys):
             e = ("var", "§elem")
             mx, my = sa.member(e, xs), sa.member(e, ys)
+            ax = _nonempty_axioms(e, (mx, my), sa)
             try:
-                return (satisfy(f_and(guard, norm_formula(mx), f_not(norm_formula(my)))) is None
-                        and satisfy(f_and(guard, norm_formula(my), f_not(norm_formula(mx)))) is None)
+                return (satisfy(f_and(guard, norm_formula(mx), f_not(norm_formula(my)), *ax)) is None
+                        and satisfy(f_and(guard, norm_formula(my), f_not(norm_formula(mx)), *ax)) is None)
             except TooManyAtoms:
                 return False
         if x[0] != y[0] or len(x) != len(y):
@@ -497,7 +532,7 @@ def joint_guard(a: "Outcome", b: "Outcome", sa: SetAlg):
 
 
 def evaluate(model: Model, qname: str, mk_ev: Callable[[], Evaluator], types: dict[str, Any], self_type: Any = None, func: Func | None = None,
-             recurse_as=()):
+             recurse_as=(), self_term: Term | None = None):
     f = func if func is not None else model.func(qname)
     ev = mk_ev()
     ev.recurse_as = set(recurse_as)
@@ -506,8 +541,7 @@ def evaluate(model: Model, qname: str, mk_ev: Callable[[], Evaluator], types: di
         v = ("var", k)
         ev.set_type(v, t)
         args[k] = v
-    self_term = None
-    if self_type is not None:
+    if self_term is None and self_type is not None:
         self_term = ("var", "self")
         ev.set_type(self_term, self_type)
     paths = ev.run(f, args, self_term) if self_term is not None else ev.run(f, args)
@@ -517,10 +551,11 @@ def evaluate(model: Model, qname: str, mk_ev: Callable[[], Evaluator], types: di
 def compare_with_reference(model: Model, impl_q: str, ref_q: str, types: dict[str, Any], mk_ev: Callable[[], Evaluator], sa: SetAlg,
                            post: Callable[[Term], Term] | None = None, ignore_raises: bool = False, ref_types: dict[str, Any] | None = None,
                            infeasible: Callable[[Path], bool] | None = None, impl_func: Func | None = None, ref_func: Func | None = None,
-                           alias: dict | None = None):
+                           alias: dict | None = None, impl_self_type: Any = None, impl_self_term: Term | None = None):
     """Return (impl_func, verdict, detail, sample) with verdict in PROVEN / REFUTED / UNKNOWN."""
     _MODEL[0] = model
-    f, ev_i, pi = evaluate(model, impl_q, mk_ev, types, func=impl_func)
+    f, ev_i, pi = evaluate(model, impl_q, mk_ev, {k: v for k, v in types.items() if k != "self"} if (impl_self_type or impl_self_term) else types,
+                           func=impl_func, self_type=impl_self_type, self_term=impl_self_term)
     _, ev_r, pr = evaluate(model, ref_q, mk_ev, ref_types or types, func=ref_func, recurse_as=(f.qname,))
     import ast as _ast
 
@@ -637,12 +672,14 @@ def load_reference(model: Model, name: str, filename: str) -> None:
             raise AnalysisError(f"anchor vanished: the reference definitions use {target}, which the repository no longer defines")
 
 
-def run_table(model: Model, rep, table, ref_module: str, mk, sa: SetAlg, infeasible=None, construct=None, loc=None, ignore_raises_for=()):
-    """table rows: (rule, implementation qname, reference function, parameter types, primitives, role, words)."""
-    for rule, impl, ref, types, prims, role, words in table:
+def run_table(model: Model, rep, table, ref_module: str, mk, sa: SetAlg, infeasible=None, construct=None, loc=None, ignore_raises_for=(), post=None):
+    """table rows: (rule, implementation qname, reference function, parameter types, primitives, role, words[, extra keyword arguments])."""
+    for row in table:
+        rule, impl, ref, types, prims, role, words = row[:7]
+        extra = row[7] if len(row) > 7 else {}
         f = model.func(impl)
         fobj, verdict, detail, sample = compare_with_reference(
-            model, impl, f"{ref_module}.{ref}", types, mk(model, prims), sa, infeasible=infeasible, ignore_raises=impl in ignore_raises_for)
+            model, impl, f"{ref_module}.{ref}", types, mk(model, prims), sa, infeasible=infeasible, ignore_raises=impl in ignore_raises_for, post=post, **extra)
         sample["definition"] = words
         cons = construct(f, role)
         if verdict == "PROVEN":
